@@ -14,7 +14,7 @@ git -C /repo worktree add -q --detach "$wt" HEAD || { echo "worktree failed" | t
 cd "$wt" || exit 2
 export CARGO_NET_OFFLINE=true CARGO_TARGET_DIR="$wt/target"
 hdr=$(head -12 "$src/demo.rs")
-if echo "$hdr" | grep -q "examples/"; then kind=example; dest=examples; else kind=test; dest=tests; fi
+if grep -qE "^(pub )?fn main\(" "$src/demo.rs"; then kind=example; dest=examples; else kind=test; dest=tests; fi
 demo_name="demo_$(echo "$name" | tr 'A-Z-' 'a-z_')"
 cp "$src/demo.rs" "$dest/$demo_name.rs"
 run_demo() {
